@@ -39,6 +39,8 @@ func (v *VC) init() {
 	v.hdrDecr = map[*ssa.BasicBlock]string{}
 	v.varOut = map[*ssa.BasicBlock]map[string]ssa.Value{}
 	v.addrOut = map[*ssa.BasicBlock]map[string]ssa.Value{}
+	v.hdrVenv = map[*ssa.BasicBlock]map[string]ssa.Value{}
+	v.hdrAenv = map[*ssa.BasicBlock]map[string]ssa.Value{}
 	v.allocID = map[ssa.Value]string{}
 	v.fvRoot = map[*ssa.FreeVar]string{}
 }
@@ -85,6 +87,11 @@ func (v *VC) Generate() {
 		v.emit("; requires %s", r.Src)
 		v.assume("true", v.evalSpec(r, v.preEnv))
 	}
+	for _, r := range v.contract.Assumes {
+		v.emit("; assumes %s", r.Src)
+		v.assume("true", v.evalSpec(r, v.preEnv))
+		v.note("input assumption of %s: %s", shortKey(fnKey(fn)), r.Src)
+	}
 	// the entry heap used by old() must see the same lazily created heap names
 	h = v.preEnv.heap.clone()
 	v.cover("cover:requires-satisfiable", "true", fn.Pos())
@@ -92,6 +99,14 @@ func (v *VC) Generate() {
 	for _, b := range order {
 		v.genBlock(b, h)
 	}
+}
+
+func copyVals(m map[string]ssa.Value) map[string]ssa.Value {
+	n := make(map[string]ssa.Value, len(m))
+	for k, x := range m {
+		n[k] = x
+	}
+	return n
 }
 
 func (v *VC) inlinable(callee *ssa.Function) bool {
@@ -580,6 +595,8 @@ func (v *VC) genBlock(b *ssa.BasicBlock, initHeap *Heap) {
 			v.assume(g, v.evalSpec(inv, env))
 		}
 		v.hdrBefore[b] = before
+		v.hdrVenv[b] = copyVals(venv)
+		v.hdrAenv[b] = copyVals(aenv)
 		if ls.Decreases != nil {
 			d := v.freshName("decr")
 			v.emit("(define-fun %s () Int %s)", d, v.evalSpec(*ls.Decreases, env))
@@ -605,7 +622,8 @@ func (v *VC) genBlock(b *ssa.BasicBlock, initHeap *Heap) {
 			if ls == nil {
 				continue
 			}
-			env := v.paramEnv(heap.clone(), venv, aenv)
+			// names visible to a loop invariant are those of the scope enclosing the loop
+			env := v.paramEnv(heap.clone(), v.hdrVenv[s], v.hdrAenv[s])
 			env.old = v.preEnv
 			env.before = v.hdrBefore[s]
 			for _, in := range s.Instrs {
@@ -654,6 +672,16 @@ func (v *VC) genInstr(in ssa.Instruction, g string, heap *Heap) {
 		if i.Comment != "" && token.IsIdentifier(i.Comment) {
 			v.curAddr[i.Comment] = i
 			delete(v.curVars, i.Comment)
+			if i.Block() == v.fn.Blocks[0] && !v.inline {
+				for _, p := range v.fn.Params {
+					if p.Name() == i.Comment {
+						if v.paramCell == nil {
+							v.paramCell = map[string]ssa.Value{}
+						}
+						v.paramCell[i.Comment] = i
+					}
+				}
+			}
 		}
 		v.zeroInit(et, v.val(i), id, heap)
 	case *ssa.FieldAddr:
@@ -1205,11 +1233,21 @@ func (v *VC) genReturn(i *ssa.Return, g string, heap *Heap) {
 	}
 	env := v.paramEnv(heap.clone(), v.curVars, v.curAddr)
 	env.old = v.preEnv
+	// a postcondition speaks about the function's parameters, not about locals that shadow them
+	for _, p := range v.fn.Params {
+		if cell, ok := v.paramCell[p.Name()]; ok {
+			env.addr[p.Name()] = cell
+			continue
+		}
+		env.vars[p.Name()] = TV{T: v.val(p), Typ: p.Type()}
+		delete(env.addr, p.Name())
+	}
 	res := v.fn.Signature.Results()
 	for k := 0; k < res.Len(); k++ {
 		tv := TV{T: vals[k], Typ: res.At(k).Type()}
 		if nm := res.At(k).Name(); nm != "" && nm != "_" {
 			env.vars[nm] = tv
+			delete(env.addr, nm) // the returned value is authoritative, not a shadowing local or the cell
 		}
 		env.vars[fmt.Sprintf("result%d", k)] = tv
 		if k == 0 {
